@@ -6,7 +6,7 @@ META = {
              'polling round; also free-running and single-task runs) and serial; every task emits unique tokens '
              'through labtech.logger (info/warning/error; records carrying exc_info; records whose %-arguments cannot be pickled) and, on process backends, through print/sys.std*.write in a '
              'planned pattern (no flush, one flush, several flushes, several lines per flush, write without newline, '
-             'stderr, thousands of lines in one record (thorough tier), thousands of separate records from one task (2-4 % of the runs)); in 45 % of the runs some tasks fail AFTER emitting (ValueError / SystemExit / unpicklable exception, or the worker process dies on the spot through os._exit / SIGKILL - then everything it had handed to the logger or flushed counts, output still in its stream buffer does not). A logging.Handler on labtech.logger in the caller '
+             'stderr, thousands of lines in one record (thorough tier), thousands of separate records from one task (2-4 % of the runs)); in 45 % of the runs some tasks fail AFTER emitting (ValueError / SystemExit / unpicklable exception, or the worker process dies on the spot through os._exit / SIGKILL - then everything it had handed to the logger or flushed counts, output still in its stream buffer does not). In 40 % of the runs a second, file-backed handler sits beside it (both must get every record once, and only in the calling process). A logging.Handler on labtech.logger in the caller '
              'collects records; it is read at the moment run_tasks returns. Oracle: every emitted token occurs '
              'exactly once over all received records. Distinct by (DAG, patterns, backend, schedule seed); '
              'non-trivial when the task finishing last emits something or a task flushes more than once.'),
@@ -118,6 +118,7 @@ def one(rep, rng, j):
             kinds += ['exit', 'kill', 'exit']
         scn['failing'] = {n: rng.choice(kinds) for n in rng.sample(names, rng.randrange(1, min(3, len(names)) + 1))}
         scn['cof'] = rng.random() < 0.75      # with False run_tasks leaves by raising LabError at the first failure
+    scn['file_sink'] = rng.random() < 0.4      # a second handler on the labtech logger, with a cross-process sink
     if rng.random() < 0.2:
         # the calling program set the verbosity of the labtech logger before the run; what a task's own logger
         # emits (fork/serial: the inherited level; spawn: the level of a fresh import) must still arrive
@@ -194,6 +195,21 @@ def one(rep, rng, j):
             key = ('lost' if k == 0 else 'duplicated') + ':' + ch
             bad.setdefault(key, f'token of task {n} ({ch}, task finished in the {where}; backend {backend}) '
                            f'received {k} times; completion order {yields}')
+    if out.file_logs is not None:
+        # every handler of the caller's labtech logger gets each record exactly once, in the calling process
+        rep.count('runs_with_a_second_file_backed_handler')
+        ftext = '\n'.join(m for _, m in out.file_logs)
+        focc = _Counter(_re.findall(r'TOK-[A-Za-z0-9_]+-\d+-[0-9a-f]{8}-END', ftext))
+        foreign_pids = sorted({p for p, _ in out.file_logs if p != out.caller_pid})
+        if foreign_pids:
+            bad.setdefault('handler-ran-in-worker', f'a handler of the calling process\'s labtech logger emitted '
+                           f'{sum(1 for p, _ in out.file_logs if p != out.caller_pid)} record(s) inside other processes '
+                           f'{foreign_pids[:4]} (backend {backend})')
+        for t, k in occ.items():
+            if t in tokens and focc.get(t, 0) != k and not (raised_lab_error and tokens[t][0] not in yields):
+                bad.setdefault('handlers-disagree:' + tokens[t][1], f'token of {tokens[t][0]} reached the in-memory handler '
+                               f'{k} time(s) and the file-backed handler {focc.get(t, 0)} time(s)')
+                break
     for key, msg in bad.items():
         rep.violation(key, msg, wit)
     last_emits = any(tokens[t][0] in last_round for t in tokens)
@@ -218,6 +234,7 @@ def run_shard(rep):
     rep.require('single_task_runs', 30)
     rep.require('tokens_of_failing_tasks', 100)
     rep.require('tasks_that_died_after_emitting', 20)
+    rep.require('runs_with_a_second_file_backed_handler', 50)
     rep.require('tokens_checked_with_differing_logger_levels', 100)
     for j in range(rep.shard, cfg['n'], rep.nshards):
         if rep.expired():
